@@ -24,6 +24,7 @@ import (
 	"path/filepath"
 	"sort"
 	"strings"
+	"time"
 
 	"github.com/ProtonMail/go-crypto/openpgp"
 	"github.com/ProtonMail/go-crypto/openpgp/armor"
@@ -227,6 +228,24 @@ func sigVariants() []sigVariant {
 				info.RPM.Signature.KeyFile = testdata("privkey_unprotected.asc")
 			}
 		}, expect: "ok"})
+	}
+	// the package mtime itself before the signing key was made (a release date, the last commit) or far in the future: a
+	// signature is made NOW, whatever time the package's members carry
+	for _, when := range []struct {
+		tag string
+		t   int64
+	}{{"mtime-1980", 315532800}, {"mtime-2100", 4102444800}} {
+		for _, v := range []struct{ name, format, method string }{{"debsign-", "deb", ""}, {"dpkgsig-", "deb", "dpkg-sig"}, {"rpm-", "rpm", ""}} {
+			v, when := v, when
+			vs = append(vs, sigVariant{name: v.name + when.tag, format: v.format, tweak: func(info *nfpm.Info, _ *cbRecord) {
+				info.MTime = time.Unix(when.t, 0).UTC()
+				if v.format == "deb" {
+					info.Deb.Signature.KeyFile, info.Deb.Signature.Method = testdata("privkey_unprotected.asc"), v.method
+				} else {
+					info.RPM.Signature.KeyFile = testdata("privkey_unprotected.asc")
+				}
+			}, expect: "ok"})
+		}
 	}
 	vs = append(vs, sigVariant{name: "debsign-type-invalid", format: "deb", tweak: func(info *nfpm.Info, _ *cbRecord) {
 		info.Deb.Signature.KeyFile = testdata("privkey_unprotected.asc")
